@@ -65,6 +65,12 @@ const WORKLOADS: &[Workload] = &[
         what: "unknown variable / unknown function errors while the other thread is active" },
     Workload { name: "rich-observation", threads: 2, sources: &["(y(me), x + 1, s); z(me) + 0.5"], rich: true,
         what: "typed views, printing, identifier iterators and cloning of the shared tree" },
+    Workload { name: "operators-and-builtins", threads: 2, sources: &[
+        "(str::to_uppercase(str::from(me) + \"ab\"), me ^ 2, math::pow(me, 2), (1; 2; 3; me), if(me > 150, 1, 2), str::from((me, me + 1, \"t\")), contains((me, 2), me), min(me, 3), max(2.5, me), me % 7, -me, me < 150, str::trim(\" x \"), len(s), bitand(me, 6), shl(me, 2), math::sqrt(me), floor(me / 3.0), typeof(me), (me, (me, 1)) == (me, (me, 1)), s + \"z\", !(me == 1), me / 7 * 3 - 1)",
+        "(str::to_uppercase(\"xyz\" + str::from(me)), me ^ 3, math::pow(2, me % 5), (me; 7), if(me > 150, \"a\", \"b\"), str::from((me, (me, 2.5))), contains((1, 2, 3), me), min(me, 300, 5), max(me, 1), me % 9, -(me + 1), me >= 200, str::trim(\"\ty\"), len((me, 1, 2)), bitor(me, 1), shr(me, 1), math::ln(me), ceil(me / 7.0), typeof(s), (me, 2) != (me, 3), \"q\" + s, !(me != 1), me * 3 / 7 + 1)"], rich: false,
+        what: "every operator class and a spread of builtins with thread-specific arguments and shapes (a process-wide cache inside any of them shows as another thread's value)" },
+    Workload { name: "printing-and-conversion", threads: 2, sources: &["str::from((me, (me, \"a\"), (), 2.5, true)) + str::from(me) + str::from(x)"], rich: true,
+        what: "Display of nested values, typed views and printing of the tree from two threads" },
     Workload { name: "builtins-disabled-context", threads: 2, sources: &["y(me) + len(s)", "y(me) + x"], rich: false,
         what: "a context with builtins disabled: the unknown-function answer must not depend on the other thread" },
 ];
